@@ -100,11 +100,28 @@ func Salted(uuid, secret, r string) string {
 	return "v2/" + uuid + "/" + ref.SaltedSecret(secret, r)
 }
 
-// Resolution is what the local cluster knows about a legacy token.
+// Resolution is what the local cluster answers when asked about a bare
+// (legacy-format or opaque) token.
+//
+//	200  found
+//	401  explicit "unknown token"
+//	403  the token is valid but scope-restricted (so it IS a token of this
+//	     cluster; UUID is set)
+//	404, 422, 429, 500, 502, 503  the lookup was answered with that status
+//	StatusConnError  the lookup failed without any answer (connection error)
+//
+// Only 200 resolves the token and only 401 says that it is not ours; after
+// every other answer nothing that contains the raw token may go to a remote.
 type Resolution struct {
-	Status int    // 200 found, 401 unknown, 500 lookup failed
-	UUID   string // api_client_authorization uuid when found
+	Status int
+	UUID   string // api_client_authorization uuid when found (200, 403)
 }
+
+// StatusConnError stands for "no HTTP answer at all".
+const StatusConnError = -1
+
+// LookupFailures are the answers other than 200 and 401.
+var LookupFailures = []int{500, 403, 404, 422, 429, 502, 503, StatusConnError}
 
 // Forward is the reference answer to "what may reach remote r for this token".
 type Forward struct {
@@ -353,17 +370,21 @@ func DrawTokens(t *rapid.T, ids []string, label string) []Token {
 
 // DrawResolution draws what the local cluster answers for a legacy token.
 func DrawResolution(t *rapid.T, ids []string, label string) Resolution {
+	status := 200
 	switch rapid.IntRange(0, 9).Draw(t, label+"Res") {
 	case 0, 1:
 		return Resolution{Status: 401}
-	case 2:
-		return Resolution{Status: 500}
+	case 2, 3, 4:
+		status = rapid.SampledFrom(LookupFailures).Draw(t, label+"Failure")
+		if status != 403 {
+			return Resolution{Status: status}
+		}
 	}
 	prefix := "qqqqq"
 	if k := rapid.IntRange(0, len(ids)).Draw(t, label+"Owner"); k < len(ids) {
 		prefix = ids[k]
 	}
-	return Resolution{Status: 200, UUID: prefix + "-gj3su-" + str(t, B36, 15, label+"UUID")}
+	return Resolution{Status: status, UUID: prefix + "-gj3su-" + str(t, B36, 15, label+"UUID")}
 }
 
 // ---------------------------------------------------------------- disclosure
